@@ -262,6 +262,12 @@ pub fn check_doc(doc: &DocumentMut) -> Result<usize, String> {
     if d2.to_string() != doc.to_string() {
         return Err("a non-modifying mutable visitor changed the document".into());
     }
+    // what does not print (empty arrays of tables, empty implicit tables) must survive the walk too
+    let mut after = Vec::new();
+    walk_table(d2.as_table(), &mut after);
+    if after.len() != expected2.len() || after.iter().zip(&expected2).any(|(a, b)| a.0 != b.0 || a.2 != b.2) {
+        return Err(format!("a non-modifying mutable visitor changed the structure: {} nodes before the walk, {} after", expected2.len(), after.len()));
+    }
     Ok(expected.len())
 }
 
